@@ -15,7 +15,7 @@ from tools import vlib
 from tools.vlib import Outcome, sx
 
 MANIFEST = {
-    "level_text": "Coq theorems (Properties/C04.v, no axioms) about a Gallina transcription of is_tauri_parameter_type, channel extraction (incl. the repaired ipc::Channel and Request<'_>), Option detection, compute_parameter_name over serde-rename-rule's apply_to_field behind the call-site guard of apply_naming_convention, and the five template shapes that decide the second argument of invoke, for every project (files of commands and helper functions with arbitrary name overlap), every parameter list, every name over [a-z0-9_], all eight configured cases and both modes: generation never panics; every command gets exactly its own keys (C04_project_keys); outside three narrow recorded classes the (key, omittable) pairs reaching invoke are a permutation of Tauri's (one per non-injected parameter incl. channels, named by heck's lowerCamelCase / snake_case rule or the configured serde rule, omittable iff Option), Zod mode validates exactly the value keys and re-attaches exactly the channel keys, both modes deliver the same entries (unconditionally), and the guarded camelCase equals Tauri's word rule. Tied to /repo on every run: both generators run on generated commands, the written files are read back by the extracted observation and compared with the model and the spec.",
+    "level_text": "Coq theorems (Properties/C04.v, no axioms) about a Gallina transcription of is_tauri_parameter_type, channel extraction (incl. the repaired ipc::Channel and Request<'_>), Option detection, compute_parameter_name over serde-rename-rule's apply_to_field behind the call-site guard of apply_naming_convention, and the five template shapes that decide the second argument of invoke, for every project (files of commands and helper functions with arbitrary name overlap), every parameter list, every name over [a-z0-9_], all eight configured cases and both modes: generation never panics; every command gets exactly its own keys (C04_project_keys), after every run of every history of runs (C04_history_keys); outside three narrow recorded classes the (key, omittable) pairs reaching invoke are a permutation of Tauri's (one per non-injected parameter incl. channels, named by heck's lowerCamelCase / snake_case rule or the configured serde rule, omittable iff Option), Zod mode validates exactly the value keys and re-attaches exactly the channel keys, both modes deliver the same entries (unconditionally), and the guarded camelCase equals Tauri's word rule. Tied to /repo on every run: both generators run on generated commands, the written files are read back by the extracted observation and compared with the model and the spec.",
     "design_ref": "DESIGN.md section 5 C04, section 11 camel_agrees",
     "level_note": "The model represents the generated module by what the key set depends on (schema keys, Params declaration, call-site shape), not by its text; the reading of the real files (Spec/C04Obs.v, token level, tolerant of non-identifier keys) is trusted, not proved against a TypeScript grammar. Commands carrying #[serde(..)] attributes on the function or its parameters (a mechanism of the tool, rejected by rustc/Tauri) are outside the model. Three known classes are premises of C04_keys/C04_optional (bare Window, rename_all in the command attribute, underscore-only names under camelCase); C04-2 (ipc::Channel), C04-3 (Request<'_> / ipc::Request<'_>) and C04-5 (panic on underscore-only names) are repaired and their witnesses are regression cases. A Request that is neither fully qualified nor written with its lifetime is outside the domain (indistinguishable from a user type).",
     "technique": "Rocq/Coq proof over hand-written model + correspondence check (extracted OCaml vs Rust harness and real CLI)"
@@ -30,7 +30,9 @@ RULE = ("single-command cases: 0-6 parameters mixing value types, every listed s
         "command of the project is judged. Types of values and of channel messages range over the README table and over types the resolver "
         "cannot render (slices, arrays, fn pointers, impl/dyn Trait, unit, raw pointers, nested channels). Configuration routes: a few commands x absent + eight "
         "parameter cases x {CLI -c file, CLI with tauri.conf.json discovered in ./, ./src-tauri/, ../, library from_tauri_config, build-script entry "
-        "point with tauri.conf.json, with typegen.json}, both modes")
+        "point with tauri.conf.json, with typegen.json}, both modes. Run histories: 2-4 runs into one output directory (unforced / --force / \"force\": true, "
+        "returning to an earlier state; states differ in parameter case, a renamed parameter, channels, an injected type; CLI -c, CLI with discovered "
+        "tauri.conf.json, build-script with tauri.conf.json / typegen.json), judged after every run")
 TRUSTED = ["Spec/C04Obs.v: token-level reading of types.ts/commands.ts (Params declaration, z.object keys, the invoke argument) - a model of TypeScript, not proved",
            "Spec/C04TauriCase.v: Tauri's argument naming and the list of injected types, transcribed from the property text and tauri-macros; lowerCamelCase and snake_case cross-checked against heck 0.5 on every generated name",
            "python printer of the Rust source; its type abstraction is cross-checked against syn on every case"]
@@ -542,6 +544,11 @@ def evaluate(cases, via="harness", in_domain=True):
     for i, c in enumerate(cases):
         c["id"] = i
     obs = impl_harness(cases) if via == "harness" else impl_route(cases) if via == "route" else impl_cli(cases)
+    return judge(cases, obs, via, in_domain)
+
+
+def judge(cases, obs, via, in_domain=True):
+    """cases (with ids) and the implementation's observation of each: model, oracle, class matcher -> Outcomes"""
     sexps, idx = [], []
     for c, o in zip(cases, obs):
         if o.get("skipped") or "crash" in o or ("panic" in o and "plain" not in o):
@@ -619,6 +626,175 @@ def evaluate(cases, via="harness", in_domain=True):
     return outs
 
 
+# ---- multi-run histories into one output directory ----
+HIST_ROUTES = ["cli-c", "cli-cwd", "build-tauri", "build-typegen"]
+
+
+def impl_history(hists):
+    """hist = {"route", "history": [{"state": case, "force": None | "flag" | "config"}, ...]}. For each mode one output
+    directory receives every run of the history in turn; sources and configuration files are rewritten before each run;
+    after EVERY run types.ts / commands.ts are read back. Returns per history the list of per-step observations."""
+    import shutil
+    import subprocess
+
+    def harness_route(payload):
+        r = subprocess.run([vlib.harness_bin("c04"), "route"], input=json.dumps(payload) + "\n", stdout=subprocess.PIPE,
+                           stderr=subprocess.DEVNULL, text=True, timeout=120, env=vlib.ENV)
+        lines = [l for l in r.stdout.splitlines() if l.startswith("{")]
+        return json.loads(lines[-1]) if lines else {"error": "driver died (exit %s)" % r.returncode}
+
+    def one(h):
+        route = h["route"]
+        steps = [{"plain": None, "zod": None, "log": {}} for _ in h["history"]]
+        with vlib.Sandbox("c04h") as sb:
+            src = sb.path("root/src-tauri/src")
+            for mode, key in (("none", "plain"), ("zod", "zod")):
+                out = sb.path("out-" + mode)
+                for i, st in enumerate(h["history"]):
+                    c = st["state"]
+                    shutil.rmtree(src, ignore_errors=True)
+                    for path, text in render_files(c):
+                        sb.write("root/src-tauri/src/" + path, text)
+                    dc = to_project(c)["default_case"]
+                    snake = {"project_path": src, "output_path": out, "validation_library": mode}
+                    camel = {"projectPath": src, "outputPath": out, "validationLibrary": mode}
+                    if dc is not None:
+                        snake["default_parameter_case"] = dc
+                        camel["defaultParameterCase"] = dc
+                    if st["force"] == "config":
+                        snake["force"] = True
+                        camel["force"] = True
+                    flag = ["--force"] if st["force"] == "flag" else []
+                    tconf = json.dumps({"productName": "demo", "plugins": {"typegen": camel}})
+                    r = None
+                    if route == "cli-c":
+                        sb.write("cfg.json", json.dumps(snake))
+                        r = sb.cli(["generate", "-c", sb.path("cfg.json")] + flag, cwd=sb.path("root"))
+                    elif route == "cli-cwd":
+                        sb.write("root/tauri.conf.json", tconf)
+                        r = sb.cli(["generate"] + flag, cwd=sb.path("root"))
+                    elif route == "build-tauri":
+                        sb.write("root/tauri.conf.json", tconf)
+                        hr = harness_route({"id": 0, "cwd": sb.path("root/src-tauri"), "kind": "build"})
+                    elif route == "build-typegen":
+                        sb.write("root/typegen.json", json.dumps(snake))
+                        hr = harness_route({"id": 0, "cwd": sb.path("root/src-tauri"), "kind": "build"})
+                    else:
+                        raise vlib.BuildError("unknown history route " + route)
+                    if r is not None:
+                        rc, text = r
+                        steps[i]["log"][key] = ("up-to-date" if "up to date" in text else "generated") if rc == 0 else "exit %s" % rc
+                        hr = {"panic": text[-300:]} if (rc == 101 or "panicked at" in text) else ({"error": text[-300:]} if rc != 0 else {"ok": True})
+                    if "panic" in hr or "error" in hr:
+                        steps[i][key] = hr
+                    else:
+                        def rd(n):
+                            p = os.path.join(out, n)
+                            return open(p, encoding="utf-8").read() if os.path.exists(p) else None
+                        steps[i][key] = {"types": rd("types.ts"), "commands": rd("commands.ts")}
+        return steps
+    return vlib.pmap(one, hists)
+
+
+def evaluate_histories(hists):
+    """One Outcome per history: after every run the keys reaching invoke must be those the CURRENT sources and
+    settings demand (judged exactly like a single run of that state)."""
+    obs = impl_history(hists)
+    flat, fobs, where = [], [], []
+    for hi, (h, steps) in enumerate(zip(hists, obs)):
+        for si, (st, o) in enumerate(zip(h["history"], steps)):
+            c = json.loads(json.dumps(st["state"]))
+            c["id"] = len(flat)
+            flat.append(c)
+            fobs.append({"id": c["id"], "plain": o["plain"], "zod": o["zod"], "heck": None, "abs": None})
+            where.append((hi, si))
+    outs = judge(flat, fobs, "history")
+    per = {}
+    for (hi, si), o in zip(where, outs):
+        per.setdefault(hi, []).append((si, o))
+    res = []
+    for hi, h in enumerate(hists):
+        so = per.get(hi, [])
+        corr = all(o.corr for _, o in so) and len(so) == len(h["history"])
+        ok = all(o.ok for _, o in so) and len(so) == len(h["history"])
+        failing = [o.kf for _, o in so if not o.ok]
+        kf = failing[0] if failing and all(failing) else None
+        det = {"runs": [{"run": si + 1, "force": h["history"][si]["force"], "default_case": to_project(h["history"][si]["state"])["default_case"],
+                         "cli_said": obs[hi][si]["log"], "corr": o.corr, "ok": o.ok,
+                         "commands": o.detail.get("commands") if not (o.corr and o.ok) else None} for si, o in so]}
+        case = {"route": h["route"], "history": h["history"], "via": "history"}
+        res.append(Outcome(case, corr, ok, kf, detail=det, nontrivial=True))
+    return res
+
+
+def history_states(rng=None):
+    """pairs (X, Y) of states differing in what decides the keys"""
+    S, O, C, C2 = VALUE_TYPES[0], OPTION_TYPES[0], CHANNEL_TYPES[0], CHANNEL_TYPES[3]
+    base = [("file_path", S), ("retry_count", O), ("app", INJECTED_TYPES[1])]
+    pairs = {
+        "parameter-case": (mk_case("save_file", base, None, None), mk_case("save_file", base, None, "snake_case")),
+        "renamed-parameter": (mk_case("save_file", base, None, None),
+                              mk_case("save_file", [("target_path", S)] + base[1:], None, None)),
+        "channel-added": (mk_case("save_file", base, None, "kebab-case"),
+                          mk_case("save_file", base + [("on_progress", C)], None, "kebab-case")),
+        "channel-renamed-and-option": (mk_case("save_file", [("on_chunk", C2), ("file_path", S)], None, None),
+                                       mk_case("save_file", [("on_data", C2), ("file_path", O)], None, None)),
+        "injected-becomes-value": (mk_case("save_file", [("win", ("Window<R>", P(["Window"], ["T"]))), ("file_path", S)], None, None),
+                                   mk_case("save_file", [("win", ("Item", P(["Item"]))), ("file_path", S)], None, None)),
+    }
+    if rng is not None:
+        a, b = random_case(rng), random_case(rng)
+        b["name"] = a["name"]
+        pairs["random"] = (a, b)
+        pj = project_case(rng)
+        for fl in pj["files"]:
+            for f in fl["fns"]:
+                f["macro"] = None          # the attribute's case is judged against one configuration; here it changes
+        pj2 = json.loads(json.dumps(pj))
+        pj2["default_case"] = rng.choice([x for x in [None, "snake_case", "PascalCase", "kebab-case"] if x != pj["default_case"]])
+        pairs["random-project-case"] = (pj, pj2)
+    return pairs
+
+
+HIST_SHAPES = [            # (state, force) per run; n = unforced, f = forced
+    [("X", "n"), ("Y", "f"), ("X", "n")],
+    [("X", "n"), ("Y", "n"), ("X", "n")],
+    [("X", "n"), ("Y", "f"), ("Y", "n"), ("X", "n")],
+    [("X", "f"), ("Y", "n"), ("X", "n"), ("Y", "n")],
+    [("X", "n"), ("X", "f"), ("Y", "f"), ("X", "n")],
+    [("X", "n"), ("Y", "f")],
+    [("X", "n"), ("X", "n")],
+]
+
+
+def history_cases(rng, thorough):
+    hists = []
+
+    def build(pair, shape, route, fkind):
+        x, y = pair
+        steps = []
+        for st, f in shape:
+            force = None if f == "n" else ("config" if (route.startswith("build") or fkind == "config") else "flag")
+            steps.append({"state": json.loads(json.dumps(x if st == "X" else y)), "force": force})
+        return {"route": route, "history": steps}
+    pairs = history_states()
+    k = 0
+    for pname, pair in pairs.items():
+        for shape in HIST_SHAPES:
+            for route in HIST_ROUTES:
+                k += 1
+                if not thorough and len(shape) != 3 and k % 3:      # quick: every 3-run shape, a third of the others
+                    continue
+                hists.append(build(pair, shape, route, "config" if k % 2 else "flag"))
+    for _ in range(400 if thorough else 30):
+        pr = history_states(rng)
+        pair = pr[rng.choice(["random", "random-project-case"])]
+        n = rng.randint(2, 4)
+        shape = [(rng.choice("XY"), rng.choice("nnf")) for _ in range(n)]
+        hists.append(build(pair, shape, rng.choice(HIST_ROUTES), rng.choice(["flag", "config"])))
+    return hists
+
+
 def load_witnesses():
     return [(e["id"], dict(e["witness"])) for e in vlib.load_known_findings("C04")]
 
@@ -667,9 +843,12 @@ def run(rep):
         for f in sorted(os.listdir(corpus_dir)):
             if f.endswith(".json"):
                 extra.append(json.load(open(os.path.join(corpus_dir, f))))
-    rep.add("corpus", evaluate([dict(w) for w in wit] + [dict(e["case"]) for e in extra if e.get("in_domain", True)]))
+    rep.add("corpus", evaluate([dict(w) for w in wit] + [dict(e["case"]) for e in extra if "case" in e and e.get("in_domain", True)]))
     rep.add("corpus-cli", evaluate([dict(w) for w in wit], via="cli"))
-    odd_corpus = [dict(e["case"]) for e in extra if not e.get("in_domain", True)]
+    hist_corpus = [e["history_case"] for e in extra if "history_case" in e]
+    if hist_corpus:
+        rep.add("corpus-histories", evaluate_histories(hist_corpus))
+    odd_corpus = [dict(e["case"]) for e in extra if "case" in e and not e.get("in_domain", True)]
     if odd_corpus:
         rep.add("corpus-outside-domain", evaluate(odd_corpus, in_domain=False))
     # exhaustive small scope
@@ -692,6 +871,12 @@ def run(rep):
     rc = route_cases(rng, thorough)
     rep.extra.setdefault("distribution", {})["config-routes"] = {"cases": len(rc), "routes": ROUTES, "parameter_case": [None] + CASES8}
     rep.add("config-routes", evaluate(rc, via="route"))
+    # histories of 2-4 runs into one output directory
+    hs = history_cases(rng, thorough)
+    rep.extra.setdefault("distribution", {})["run-histories"] = {
+        "histories": len(hs), "runs": sum(len(h["history"]) for h in hs) * 2, "routes": HIST_ROUTES,
+        "forced_runs": sum(1 for h in hs for s_ in h["history"] if s_["force"])}
+    rep.add("run-histories", evaluate_histories(hs))
     # random, outside every class (where the theorems speak) and inside each class
     n = 40000 if thorough else 1500
     main = [random_case(rng) for _ in range(n)]
@@ -719,4 +904,7 @@ def replay(rep, payload):
         c = dict(it["case"])
         via = c.pop("via", "harness")
         stream = it.get("stream", "replay")
-        rep.add(stream, evaluate([c], via=via, in_domain=("outside-domain" not in stream)))
+        if via == "history":
+            rep.add(stream, evaluate_histories([c]))
+        else:
+            rep.add(stream, evaluate([c], via=via, in_domain=("outside-domain" not in stream)))
